@@ -163,6 +163,14 @@ int main(void) {
             m2 = gss_unwrap(&min, c, &wb, &o, &conf, &q);
             printf("{\"rc\":0,\"mic\":%u,\"unwrap\":%u,", (unsigned)m1, (unsigned)m2); puthex("plain", GSS_ERROR(m2) ? (unsigned char *)"" : o.value, GSS_ERROR(m2) ? 0 : o.length);
             printf(",\"out\":\"\"}\n");
+        } else if (!strcmp(tok[0], "hostrealm") && nt == 3) {
+            /* hostrealm <krb5.conf path> <host name> : the realm MIT's [domain_realm] resolution gives the host ("" = none) */
+            setenv("KRB5_CONFIG", tok[1], 1);
+            krb5_context c2; char **realms = NULL; krb5_error_code rc = krb5_init_context(&c2);
+            if (!rc) rc = krb5_get_host_realm(c2, tok[2], &realms);
+            printf("{\"rc\":%d,\"realm\":\"%s\",\"out\":\"\"}\n", (int)rc, (!rc && realms && realms[0]) ? realms[0] : "");
+            if (!rc && realms) krb5_free_host_realm(c2, realms);
+            if (c2) krb5_free_context(c2);
         } else if (!strcmp(tok[0], "gssinit") && nt == 5) {
             /* gssinit <user@REALM> <password> <service@host> <spnego|krb5> : log in and print the initiator's first context token */
             krb5_principal me = NULL; krb5_creds tgt; krb5_ccache cc = NULL; krb5_get_init_creds_opt *opt = NULL; memset(&tgt, 0, sizeof tgt);
